@@ -55,7 +55,7 @@ Print Assumptions C10_close_last.
    datagram is one chunk of the byte stream the theorems above speak about (finding F13: with the
    former 512-byte buffer the rest of a longer datagram was discarded) *)
 From Coq Require Import ZArith.
-From GM Require Import SrcFrame SrcFrameTie.
+From GM Require Import SrcFrame SrcFrameBufTie.
 Theorem C10_source_read_buffer_holds_a_datagram :
   (65507 <= c_frame_readBufferSize /\ c_frame_readBufferSize = a_frame_Reader_Initialize_NewReaderSize)%Z.
 Proof. exact src_read_buffer. Qed.
